@@ -38,6 +38,38 @@ def row_scale(r):
     return (max(vals) if vals else 0.0) * (max(cur) if cur else 0.0)
 
 
+def shape_mismatch(desc, obs, model, kw):
+    """which columns solve() shows is part of the report: Parent XOR Rail in/out (any rail defined), Domain (two or more
+    sources), Group (any non-empty group), Phase (phases solved), temperature columns (some rise > 0 somewhere), energy.
+    Returns None or a detail dict."""
+    comps = desc["comps"]
+    exp = {"name", "typ", "vin", "vout", "iin", "iout", "pwr", "loss", "eff", "warn"}
+    if any(c.get("rail", "") for c in comps if c["kind"] not in ("pload", "iload", "rload")):
+        exp |= {"railIn", "railOut"}
+    else:
+        exp.add("parent")
+    if sum(1 for c in comps if c["kind"] == "source") > 1:
+        exp.add("domain")
+    if any(c.get("group", "") for c in comps):
+        exp.add("group")
+    if desc.get("phases") or kw.get("phase"):
+        exp.add("phase")
+    if kw.get("energy"):
+        exp.add("ener")
+    rise = False
+    for p in model.get("phases", []):
+        for r in p.get("rows", []):
+            t = wire.unnum(r.get("tr")) if r.get("tr") is not None else None
+            if t is not None and t > 0:
+                rise = True
+    if rise:
+        exp |= {"tr", "tp"}
+    got = set(obs["cols"])
+    if got != exp:
+        return {"missing": sorted(exp - got), "unexpected": sorted(got - exp), "columns": sorted(got)}
+    return None
+
+
 def compare_tables(obs, model, cols=None, textcols=None):
     """cell-by-cell comparison of the implementation's table with the model's assembly.
     Returns a list of mismatch records."""
